@@ -494,6 +494,12 @@ func (g *Graph) CountPaths(start Loc, event func(n ast.Node) int, stopAt func(n 
 // CountPathsIn is CountPaths restricted to a region of blocks: leaving the region is an
 // exit (recorded at Loc{block,-1} of the first block outside).
 func (g *Graph) CountPathsIn(start Loc, event func(n ast.Node) int, stopAt func(n ast.Node, l Loc) bool, inRegion func(b *cfg.Block) bool) (before map[Loc]uint8, exits map[Loc]uint8) {
+	return g.CountPathsEdges(start, event, stopAt, inRegion, nil)
+}
+
+// CountPathsEdges additionally prunes edges: edgeOK(cond, takenTrue) == false removes the
+// corresponding successor of a conditional block (path-sensitivity on chosen predicates).
+func (g *Graph) CountPathsEdges(start Loc, event func(n ast.Node) int, stopAt func(n ast.Node, l Loc) bool, inRegion func(b *cfg.Block) bool, edgeOK func(cond ast.Expr, takenTrue bool) bool) (before map[Loc]uint8, exits map[Loc]uint8) {
 	before = map[Loc]uint8{}
 	exits = map[Loc]uint8{}
 	in := map[*cfg.Block]uint8{}
@@ -544,11 +550,20 @@ func (g *Graph) CountPathsIn(start Loc, event func(n ast.Node) int, stopAt func(
 			continue
 		}
 		live := 0
-		for _, s := range it.b.Succs {
+		var cnd ast.Expr
+		if edgeOK != nil {
+			if ce, tag, ok := g.condOf(it.b); ok && tag == nil {
+				cnd = ce
+			}
+		}
+		for si, s := range it.b.Succs {
 			if !s.Live {
 				continue
 			}
 			live++
+			if cnd != nil && !edgeOK(cnd, si == 0) {
+				continue
+			}
 			if inRegion != nil && !inRegion(s) {
 				exits[Loc{s, -1}] |= m
 				continue
